@@ -418,6 +418,7 @@ class Categorize(Factory, Container):
             isinstance(other, Categorize)
             and numeq(self.entries, other.entries)
             and self.quantity == other.quantity
+            and self.contentType == other.contentType
             and self.bins == other.bins
         )
 
